@@ -200,7 +200,16 @@ def check_case(case) -> Obs:
                 seen = 0
                 fed_empty = []
                 initially_empty = {(i_, idx_) for i_, lw_ in enumerate(world.labs) for idx_ in np.ndindex(lw_.volumes.shape) if lw_.volumes[idx_] == 0}
-                program = [dict(o, final=False) for o in case["ops"]] + [dict(case["fail"], final=True)]
+                program = []
+                fed = False
+                for o in case["ops"]:
+                    fed = fed or o.get("to_empty") is not None
+                    if o["op"] == "transfer" and o.get("hint") is not None and not fed and initially_empty:
+                        # a hinted transfer needs a well of unknown content: feed one first
+                        program.append({"op": "dispense", "lw": 0, "wells": {"t": "scalar", "w": [0, 0]}, "vols": {"t": "scalar", "v": {"f": 0.5}}, "label": None, "to_empty": o["hint"], "final": False})
+                        fed = True
+                    program.append(dict(o, final=False))
+                program.append(dict(case["fail"], final=True))
                 for k, op in enumerate(program):
                     kind = op["op"]
                     if kind.startswith("evo_") and device != "evo":
